@@ -440,4 +440,66 @@ def Allowed (q : Quirks) (evs : List Event) : Prop := allowedFrom q init evs = t
 
 instance (q : Quirks) (evs : List Event) : Decidable (Allowed q evs) := by unfold Allowed; infer_instance
 
+/-! ## The exclusion that is left once the repairs are in (`_fixed_partial` theorems) -/
+
+/-- The five repairs that have landed: one notification per pushed element, wake-ups carried out right after the
+    command that requested them, a served client unregistered everywhere, no blocking inside EXEC, a key named
+    twice waited on once. -/
+def Repaired (q : Quirks) : Prop :=
+  q.notifyPerElement = true ∧ q.wakeAtPush = true ∧ q.unregisterAllOnServe = true ∧
+  q.refuseBlockingInTx = true ∧ q.dedupKeys = true
+
+instance (q : Quirks) : Decidable (Repaired q) := by unfold Repaired; infer_instance
+
+/-- * a blocking pop is not executed on behalf of a connection that is already blocked (a second blocking pop
+      pipelined behind one that blocked: the second call is never answered) — cannot occur with `deferBatchWhenBlocked`;
+    * a push carries at most `wakeBatch` elements (the drain after a command carries out one batch of wake-ups;
+      the 33rd waiter's element can be popped by the next command before its turn) — dropped with `drainAll`.
+    Any number of keys per blocking pop, duplicates included, any number of elements up to that bound, pops
+    anywhere. -/
+def dataOkF (q : Quirks) (s : State) (cid : Conn) : Cmd → Bool
+  | .bpop _ _ _ => cid == 0 || (s.conns cid).blocked.isNone
+  | .push _ _ vs => q.drainAll || decide (vs.length ≤ wakeBatch)
+  | _ => true
+
+def dataSeqOkF (q : Quirks) (now : Nat) (c cid : Conn) : State → List Cmd → Bool
+  | _, [] => true
+  | s, cmd :: r => dataOkF q s cid cmd && dataSeqOkF q now c cid (dataCmd q now c cid s cmd) r
+
+def topOkF (q : Quirks) (now : Nat) (c : Conn) (s : State) : Cmd → Bool
+  | .multi => true
+  | .exec =>
+    if (s.conns c).inTx then
+      dataSeqOkF q now c 0
+        (emit (setConn s c fun cs => { cs with inTx := false, queue := [] }) c (.arrHdr (s.conns c).queue.length))
+        (s.conns c).queue
+    else true
+  | cmd => if (s.conns c).inTx then true else dataOkF q s c cmd
+
+def batchOkF (q : Quirks) (now : Nat) (c : Conn) : List Cmd → State → Bool
+  | [], _ => true
+  | cmd :: r, s =>
+    topOkF q now c s cmd &&
+      (if q.deferBatchWhenBlocked = true ∧ ((topCmd q now c s cmd).conns c).blocked.isSome = true then true
+       else batchOkF q now c r (topCmd q now c s cmd))
+
+/-- No hang-up while blocked (the element under way to a peer that has just gone is lost under every design:
+    `Ferrous.C13.conservation_fails_disconnect_in_flight_even_fixed`); batches as above. -/
+def eventOkF (q : Quirks) (s : State) : Event → Bool
+  | .conn c now cmds =>
+    if canRun s c = true then
+      batchOkF q now c ((s.conns c).pending ++ cmds) (setConn s c fun cs => { cs with pending := [] })
+    else true
+  | .hangup c => (s.conns c).blocked.isNone
+  | _ => true
+
+def allowedFixedFrom (q : Quirks) : State → List Event → Bool
+  | _, [] => true
+  | s, e :: r => eventOkF q s e && allowedFixedFrom q (step q s e) r
+
+/-- The histories covered by the `_fixed_partial` theorems. -/
+def AllowedFixed (q : Quirks) (evs : List Event) : Prop := allowedFixedFrom q init evs = true
+
+instance (q : Quirks) (evs : List Event) : Decidable (AllowedFixed q evs) := by unfold AllowedFixed; infer_instance
+
 end Ferrous.Blk
